@@ -189,7 +189,12 @@ Definition process_presses (c : chv2) (active_layer : N) : outcome chv2 :=
 
 Definition drain_inputs (c : chv2) (drainq : list queued) (active_layer : N) : outcome (chv2 * list queued) :=
   if 0 <? cv_ignore c then
-    Ok (set_cv_queue [] c, wdeque_extend SMOL_Q_LEN (cv_queue c) drainq)
+    (* releases still reach the active chords while chords are being ignored *)
+    let achs := fold_left (fun achs qd =>
+                             if negb (q_press qd) && (fst (q_coord qd) =? 0)
+                             then map (release_in_ach (snd (q_coord qd))) achs else achs)
+                          (cv_queue c) (cv_active c) in
+    Ok (set_cv_active achs (set_cv_queue [] c), wdeque_extend SMOL_Q_LEN (cv_queue c) drainq)
   else if (0 <? cv_until_change c) && (cv_prev_layer c =? active_layer) && (cv_prev_qlen c =? N.of_nat (length (cv_queue c))) then
     Ok (set_cv_until (cv_until_change c - 1) c, drainq)
   else
